@@ -81,3 +81,31 @@ func Settle(done func() bool, need int) bool {
 		}
 	}
 }
+
+// Spin is Settle without sleeping: it polls (yielding the processor in between) until done() reports true (returns false)
+// or the process has been quiet on `need` consecutive observations (returns true). A goroutine woken by another one is
+// runnable before the waker blocks, so there is no window in which everything looks blocked while work is pending -
+// provided no real timers are pending (time is virtual in the checks that use this).
+func Spin(done func() bool, need int) bool {
+	streak := 0
+	for i := 0; ; i++ {
+		if done != nil && done() {
+			return false
+		}
+		if Quiet() {
+			streak++
+			if streak >= need {
+				if done != nil && done() {
+					return false
+				}
+				return true
+			}
+		} else {
+			streak = 0
+		}
+		runtime.Gosched()
+		if i > 2000 {
+			time.Sleep(20 * time.Microsecond) // something runs for long: stop burning the processor
+		}
+	}
+}
